@@ -166,7 +166,10 @@ def specs(with_loopy=True) -> dict[str, KindSpec]:
         "matrix": [pt.make_csr_matrix((4, 4), ev2, ec, rs), pt.make_csr_matrix((4, 4), ev, ec2, rs),
                    pt.make_csr_matrix((4, 4), ev, ec, rs2),
                    dataclasses.replace(mat, tags=frozenset({VFooTag()})),
-                   dataclasses.replace(mat, axes=tagged_axes(2, 0))],
+                   dataclasses.replace(mat, axes=tagged_axes(2, 0)),
+                   dataclasses.replace(mat, shape=(n, 4)),
+                   dataclasses.replace(mat, dtype=np.dtype("float32")),
+                   dataclasses.replace(mat, non_equality_tags=frozenset({VFooTag()}))],
         "reduction_var": ["_r7"],
         "reduction_descr": [ReductionDescriptor(frozenset({VFooTag()}))],
     })
@@ -194,7 +197,8 @@ def specs(with_loopy=True) -> dict[str, KindSpec]:
     fd = call.function
     fd_g = call_g.function
     add("FunctionDefinition", fd, {"returns": [fd_g.returns], "tags": [frozenset({VFooTag()})],
-                                   "return_type": [], "parameters": []}, nd=0)
+                                   "return_type": [],
+                                   "parameters": [fd.parameters | frozenset({"unused_param"})]}, nd=0)
     # ---- distributed
     from pytato.distributed.nodes import (
         make_distributed_recv, make_distributed_send, make_distributed_send_ref_holder)
